@@ -4,6 +4,7 @@ go 1.21
 
 require (
 	github.com/docker/docker v17.12.0-ce-rc1.0.20200531234253-77e06fda0c94+incompatible
+	github.com/docker/go-units v0.4.0
 	github.com/openebs/jiva v0.0.0
 	github.com/openebs/sparse-tools v1.1.0
 	github.com/sirupsen/logrus v1.7.0
@@ -13,7 +14,6 @@ require (
 	github.com/beorn7/perks v1.0.1 // indirect
 	github.com/cespare/xxhash/v2 v2.1.1 // indirect
 	github.com/cpuguy83/go-md2man/v2 v2.0.0-20190314233015-f79a8a8ca69d // indirect
-	github.com/docker/go-units v0.4.0 // indirect
 	github.com/frostschutz/go-fibmap v0.0.0-20160825162329-b32c231bfe6a // indirect
 	github.com/golang/protobuf v1.3.3 // indirect
 	github.com/google/uuid v1.2.0 // indirect
